@@ -314,6 +314,10 @@ def run_harnesses(scratch, package, harnesses, jobs=8, timeout=3600, extra_args=
 def _run_harnesses_uncached(scratch, package, harnesses, jobs=8, timeout=3600, extra_args=None, target_slot='main'):
     env = dict(os.environ)
     env['CARGO_NET_OFFLINE'] = 'true'
+    if target_slot == 'main':
+        # concurrent checks (the seed matrix runs several lanes) must not share one cargo target dir: different source trees
+        # compiled into the same dir clobber each other's artifacts (seen as spurious 'did not compile' / missing verdicts)
+        target_slot = os.environ.get('VERIF_KANI_SLOT', 'main')
     env['CARGO_TARGET_DIR'] = os.path.join(CACHE, 'kani-target-' + target_slot)
     os.makedirs(CACHE, exist_ok=True)
     cmd = ['cargo', 'kani', '-p', package, '-Z', 'function-contracts', '-Z', 'stubbing',
